@@ -421,13 +421,15 @@ func RunScenario(t *testing.T, rec *Recorder, sc *Scenario) {
 			"nofailfile": eff["rapid.nofailfile"] == "true", "failfile": eff["rapid.failfile"], "shrinktime": eff["rapid.shrinktime"],
 			"steps": eff["rapid.steps"], "v": eff["rapid.v"] == "true", "files": pre, "keyed": p.Keyed, "expect": run.Expect, "expectRun": run.ExpectRun})
 		prop := r.Prop(p)
+		shrinkChainReset()
 		switch ren {
 		case "check":
 			tb := NewRecTB(name, rec)
 			InvStart() // (the whole engine call is watched, not only the property function)
 			how, pv := tb.Run(func() { rapid.Check(tb, prop) })
 			InvStop()
-			rec.Emit("run.end", F{"run": i + 1, "how": how, "panic": fmt.Sprint(pv), "failed": tb.Failed(), "failnow": tb.failNow, "skipped": tb.skipped})
+			rec.Emit("run.end", F{"run": i + 1, "how": how, "panic": fmt.Sprint(pv), "failed": tb.Failed(), "failnow": tb.failNow, "skipped": tb.skipped,
+				"tries": shrinkTries(eff["rapid.shrinktime"])})
 			prevSeed, prevFile = lastRepr(tb)
 		case "makecheck":
 			var failed, skipped bool
@@ -458,7 +460,8 @@ func RunScenario(t *testing.T, rec *Recorder, sc *Scenario) {
 					rapid.MakeCheck(prop)(st)
 				}
 			})
-			rec.Emit("run.end", F{"run": i + 1, "how": howMk, "panic": "", "failed": failed || howMk == "panic", "failnow": failed, "skipped": skipped})
+			rec.Emit("run.end", F{"run": i + 1, "how": howMk, "panic": "", "failed": failed || howMk == "panic", "failnow": failed, "skipped": skipped,
+				"tries": shrinkTries(eff["rapid.shrinktime"])})
 		case "example":
 			// Generator.Example: every call of a Custom generator function is an invocation with its own context and cleanups
 			bg := r.genv.Build(run.ExampleGen)
@@ -475,7 +478,7 @@ func RunScenario(t *testing.T, rec *Recorder, sc *Scenario) {
 				}()
 			}
 			r.resample(*r.exCtxs(), "after")
-			rec.Emit("run.end", F{"run": i + 1, "how": "example", "panic": "", "failed": false, "failnow": false, "skipped": false})
+			rec.Emit("run.end", F{"run": i + 1, "how": "example", "panic": "", "failed": false, "failnow": false, "skipped": false, "tries": ""})
 		case "fuzz":
 			fz := rapid.MakeFuzz(prop)
 			inputs := [][]byte{}
@@ -522,7 +525,7 @@ func RunScenario(t *testing.T, rec *Recorder, sc *Scenario) {
 				})
 				rec.Emit("fuzz.end", F{"run": i + 1, "j": j + 1, "status": status, "completed": completed})
 			}
-			rec.Emit("run.end", F{"run": i + 1, "how": "fuzz", "panic": "", "failed": false, "failnow": false, "skipped": false})
+			rec.Emit("run.end", F{"run": i + 1, "how": "fuzz", "panic": "", "failed": false, "failnow": false, "skipped": false, "tries": ""})
 		}
 		if prevFile != "" {
 			if abs, err := filepath.Abs(prevFile); err == nil {
@@ -636,8 +639,62 @@ func rejHook(ev string, kv []any) {
 	}
 }
 
+// the chain of candidates the minimizer tried in the current run (their order is part of "the whole run")
+var shrinkChain struct {
+	mu    sync.Mutex
+	h     uint64
+	n     int
+	begun time.Time
+	took  time.Duration
+	done  bool
+}
+
+func shrinkChainReset() {
+	shrinkChain.mu.Lock()
+	shrinkChain.h, shrinkChain.n, shrinkChain.done, shrinkChain.took = 0, 0, false, 0
+	shrinkChain.mu.Unlock()
+}
+
+// shrinkTries: "" when nothing was minimized in this run or the minimizer may have been cut short by -rapid.shrinktime
+func shrinkTries(shrinktime string) string {
+	shrinkChain.mu.Lock()
+	defer shrinkChain.mu.Unlock()
+	d, err := time.ParseDuration(shrinktime)
+	if !shrinkChain.done || err != nil || shrinkChain.took > d/2 {
+		return ""
+	}
+	return fmt.Sprintf("%d:%016x", shrinkChain.n, shrinkChain.h)
+}
+
+func shrinkChainHook(ev string, kv []any) {
+	switch ev {
+	case "shrink.begin":
+		shrinkChain.mu.Lock()
+		shrinkChain.h, shrinkChain.n, shrinkChain.begun, shrinkChain.done = 14695981039346656037, 0, time.Now(), false
+		shrinkChain.mu.Unlock()
+	case "shrink.end":
+		shrinkChain.mu.Lock()
+		shrinkChain.took, shrinkChain.done = time.Since(shrinkChain.begun), true
+		shrinkChain.mu.Unlock()
+	case "accept":
+		for i := 0; i+1 < len(kv); i += 2 {
+			if kv[i] == "cand" {
+				shrinkChain.mu.Lock()
+				h := shrinkChain.h
+				for _, w := range kv[i+1].([]uint64) {
+					h = (h ^ w) * 1099511628211
+				}
+				shrinkChain.h = (h ^ 0xff) * 1099511628211
+				shrinkChain.n++
+				shrinkChain.mu.Unlock()
+			}
+		}
+	}
+}
+
 func CaptureHook(ev string, kv []any) {
 	rejHook(ev, kv)
+	shrinkChainHook(ev, kv)
 	if ev == "phase" {
 		for i := 0; i+1 < len(kv); i += 2 {
 			if kv[i] == "kind" {
